@@ -23,6 +23,9 @@ Definition is_final_start (o : obs) : bool :=
 Definition is_return (o : obs) : bool :=
   match o with EReturn _ => true | _ => false end.
 
+(* o is a Redraw(f) request: the whole call, or its invocation *)
+Definition Req (f : bool) (o : obs) : Prop := o = ERedraw f \/ o = ERedrawCall f.
+
 (* a redraw (a full one if the request was full) starts somewhere in b *)
 Definition Served (f : bool) (b : list obs) : Prop :=
   exists b1 g b2, b = b1 ++ CRedrawStart g :: b2 /\ (f = true -> g = true).
@@ -39,7 +42,7 @@ Record Spec_C32 (os : list obs) : Prop := mkSpec {
   (* whenever the loop blocks (so it has not returned), every earlier redraw
      request was followed by a redraw that started after it, a full request by
      a full redraw *)
-  sp_redraw : forall a f b c, os = a ++ ERedraw f :: b ++ OQuiesce :: c -> Served f b;
+  sp_redraw : forall a o f b c, os = a ++ o :: b ++ OQuiesce :: c -> Req f o -> Served f b;
   (* the loop never blocks while a Return is pending *)
   sp_return_honoured : forall a c, os = a ++ OQuiesce :: c -> forall o, In o a -> is_return o = false;
   (* Run returns the value of the first Return, after exactly one final redraw,
@@ -134,10 +137,10 @@ Proof.
   - simpl in H. destruct m as [ok acc cb uns unsf fst fn dn]; simpl in *; subst unsf.
     rewrite ?andb_false_r in H; simpl in H; rewrite ?andb_false_r in H; discriminate.
   - destruct (is_full_start o) eqn:Hr.
-    + destruct o as [| | |[|]| | | | | | |]; try discriminate Hr. exists [], b; reflexivity.
+    + destruct o as [| | |[|]| | | | | | | |]; try discriminate Hr. exists [], b; reflexivity.
     + simpl app in H; rewrite mrun_cons in H.
       assert (Hu' : m_unsf (mstep m o) = true).
-      { destruct m as [ok acc cb uns unsf fst fn dn]; destruct o as [| | |[|]| | | | | | |];
+      { destruct m as [ok acc cb uns unsf fst fn dn]; destruct o as [| | |[|]| | | | | | | |];
           simpl in *; subst; try reflexivity; discriminate. }
       destruct (IH _ Hu' H) as (b1 & b2 & ->). exists (o :: b1), b2; reflexivity.
 Qed.
@@ -160,15 +163,15 @@ Proof.
   induction b as [|o b IH]; intros m Hu Hb; [assumption|].
   rewrite mrun_cons; apply IH; [|intros x Hx; apply Hb; right; assumption].
   pose proof (Hb o (or_introl eq_refl)) as Ho.
-  destruct m as [ok acc cb uns unsf fst fn dn]; destruct o as [| | |[|]| | | | | | |];
+  destruct m as [ok acc cb uns unsf fst fn dn]; destruct o as [| | |[|]| | | | | | | |];
     simpl in *; subst; try reflexivity; discriminate.
 Qed.
 
-Lemma after_request : forall m f,
-  m_uns (mstep m (ERedraw f)) = true /\ (f = true -> m_unsf (mstep m (ERedraw f)) = true).
+Lemma after_request : forall m f o, Req f o ->
+  m_uns (mstep m o) = true /\ (f = true -> m_unsf (mstep m o) = true).
 Proof.
-  intros [ok acc cb uns unsf fst fn dn] f; simpl; split; [reflexivity|].
-  intros ->; apply orb_true_r.
+  intros [ok acc cb uns unsf fst fn dn] f o [->| ->]; simpl; (split; [reflexivity|]);
+    intros ->; apply orb_true_r.
 Qed.
 
 (* ---------- return ---------- *)
@@ -269,14 +272,14 @@ Proof.
     unfold check_C32 in H. apply ok_prefix in H.
     pose proof (acc_track _ _ H) as E; simpl in E. rewrite Hacc, app_nil_r in E; exact E.
   - (* redraw *)
-    intros a f b c ->. unfold check_C32 in H.
-    replace (a ++ ERedraw f :: b ++ OQuiesce :: c)
-      with ((a ++ [ERedraw f]) ++ (b ++ [OQuiesce]) ++ c) in H
+    intros a o f b c -> Hreq. unfold check_C32 in H.
+    replace (a ++ o :: b ++ OQuiesce :: c)
+      with ((a ++ [o]) ++ (b ++ [OQuiesce]) ++ c) in H
       by (rewrite <- !app_assoc; reflexivity).
     rewrite mrun_app in H. apply ok_prefix in H.
-    rewrite (mrun_app a mon0 [ERedraw f]) in H.
-    change (mrun (mrun mon0 a) [ERedraw f]) with (mstep (mrun mon0 a) (ERedraw f)) in H.
-    destruct (after_request (mrun mon0 a) f) as [Hu Hf].
+    rewrite (mrun_app a mon0 [o]) in H.
+    change (mrun (mrun mon0 a) [o]) with (mstep (mrun mon0 a) o) in H.
+    destruct (after_request (mrun mon0 a) f o Hreq) as [Hu Hf].
     destruct f.
     + destruct (unsf_served _ _ (Hf eq_refl) H) as (b1 & b2 & ->).
       exists b1, true, b2; split; reflexivity.
@@ -338,38 +341,39 @@ Qed.
    no redraw start after it means the loop has committed to return, or the token
    is still in the channel, or the loop is on its way to a redraw that needs no
    further request *)
-Lemma redraw_not_lost : forall ts s a f b,
-  run init ts = Some s -> proj ts = a ++ ERedraw f :: b ->
+Lemma redraw_not_lost : forall ts s a o f b,
+  run init ts = Some s -> proj ts = a ++ o :: b -> Req f o ->
   (exists o, In o b /\ is_redraw_start o = true) \/
-  returning (pcs s) <> None \/ tok s = true \/ before_redraw (pcs s) = true.
+  returning (pcs s) <> None \/ tok s = true \/ before_redraw (pcs s) = true \/ in_flight s.
 Proof.
-  intros ts s a f b Hr Hp.
+  intros ts s a o f b Hr Hp Hreq.
   destruct (existsb is_redraw_start b) eqn:Ex.
   - left. apply existsb_exists in Ex. exact Ex.
   - right. pose proof (inv_reach _ _ Hr) as (_ & _ & _ & Hu & _).
     apply Hu. rewrite Hp.
-    replace (a ++ ERedraw f :: b) with ((a ++ [ERedraw f]) ++ b) by (rewrite <- app_assoc; reflexivity).
+    replace (a ++ o :: b) with ((a ++ [o]) ++ b) by (rewrite <- app_assoc; reflexivity).
     rewrite mrun_app. apply uns_keep; [|apply existsb_false_all; assumption].
-    rewrite mrun_app; apply after_request.
+    rewrite mrun_app; apply (after_request _ f); assumption.
 Qed.
 
 (* full_not_downgraded: a full request with no full redraw start after it means
    the loop has committed to return, or it holds the extracted full flag just
    before drawing, or the flag is still set and will be extracted *)
-Lemma full_not_downgraded : forall ts s a b,
-  run init ts = Some s -> proj ts = a ++ ERedraw true :: b ->
+Lemma full_not_downgraded : forall ts s a o b,
+  run init ts = Some s -> proj ts = a ++ o :: b -> Req true o ->
   (exists o, In o b /\ is_full_start o = true) \/
   returning (pcs s) <> None \/ pcs s = PExtracted true \/
-  (full s = true /\ (tok s = true \/ before_extract (pcs s) = true)).
+  (full s = true /\ (tok s = true \/ before_extract (pcs s) = true \/ mid s <> None)) \/
+  pendf s <> 0.
 Proof.
-  intros ts s a b Hr Hp.
+  intros ts s a o b Hr Hp Hreq.
   destruct (existsb is_full_start b) eqn:Ex.
   - left. apply existsb_exists in Ex. exact Ex.
   - right. pose proof (inv_reach _ _ Hr) as (_ & _ & _ & _ & Hf & _).
     apply Hf. rewrite Hp.
-    replace (a ++ ERedraw true :: b) with ((a ++ [ERedraw true]) ++ b) by (rewrite <- app_assoc; reflexivity).
+    replace (a ++ o :: b) with ((a ++ [o]) ++ b) by (rewrite <- app_assoc; reflexivity).
     rewrite mrun_app. apply unsf_keep; [|apply existsb_false_all; assumption].
-    rewrite mrun_app; apply after_request; reflexivity.
+    rewrite mrun_app; apply (after_request _ true); [assumption|reflexivity].
 Qed.
 
 (* first_return_wins: once the loop has committed to return r (and ever after),
@@ -398,23 +402,28 @@ Lemma callbacks_never_overlap : forall ts s a o1 b o2 c,
   is_start o1 = true -> is_start o2 = true -> exists o, In o b /\ is_end o = true.
 Proof. intros ts s a o1 b o2 c Hr Hp. eapply sp_serial; [eapply model_satisfies_spec|]; eauto. Qed.
 
-Lemma redraw_served_when_blocked : forall ts s a f b c,
-  run init ts = Some s -> proj ts = a ++ ERedraw f :: b ++ OQuiesce :: c -> Served f b.
-Proof. intros ts s a f b c Hr Hp. eapply sp_redraw; [eapply model_satisfies_spec|]; eauto. Qed.
+Lemma redraw_served_when_blocked : forall ts s a o f b c,
+  run init ts = Some s -> proj ts = a ++ o :: b ++ OQuiesce :: c -> Req f o -> Served f b.
+Proof. intros ts s a o f b c Hr Hp Hq. eapply sp_redraw; [eapply model_satisfies_spec| |]; eauto. Qed.
 
 (* state-level corollary: in a blocked loop nothing is left unserved *)
-Lemma blocked_all_served : forall ts s a f b,
-  run init ts = Some s -> quiescent s = true -> proj ts = a ++ ERedraw f :: b ->
+Lemma blocked_all_served : forall ts s a o f b,
+  run init ts = Some s -> quiescent s = true -> proj ts = a ++ o :: b -> Req f o ->
   exists o, In o b /\ (if f then is_full_start o else is_redraw_start o) = true.
 Proof.
-  intros ts s a f b Hr Hq Hp.
-  assert (Hpc : pcs s = PSelect /\ tok s = false).
-  { unfold quiescent in Hq. destruct (pcs s); try discriminate Hq. split; [reflexivity|].
-    destruct (tok s); [|reflexivity]. rewrite andb_false_r in Hq; discriminate. }
-  destruct Hpc as [Hpc Ht].
+  intros ts s a o f b Hr Hq Hp Hreq.
+  assert (Hpc : pcs s = PSelect /\ tok s = false /\ pendf s = 0 /\ pendn s = 0 /\ mid s = None).
+  { unfold quiescent, loop_idle in Hq.
+    repeat (apply andb_true_iff in Hq; destruct Hq as [Hq ?]).
+    destruct (pcs s); try discriminate Hq.
+    repeat (apply andb_true_iff in Hq; destruct Hq as [Hq ?]).
+    split; [reflexivity|]. split; [destruct (tok s); [discriminate|reflexivity]|].
+    split; [apply Nat.eqb_eq; assumption|]. split; [apply Nat.eqb_eq; assumption|].
+    destruct (mid s); [discriminate|reflexivity]. }
+  destruct Hpc as (Hpc & Ht & Hpf & Hpn & Hmd).
   destruct f.
-  - destruct (full_not_downgraded _ _ _ _ Hr Hp) as [H|[H|[H|[_ [H|H]]]]]; auto;
-      rewrite ?Hpc, ?Ht in H; simpl in H; try discriminate; congruence.
-  - destruct (redraw_not_lost _ _ _ _ _ Hr Hp) as [H|[H|[H|H]]]; auto;
-      rewrite ?Hpc, ?Ht in H; simpl in H; try discriminate; congruence.
+  - destruct (full_not_downgraded _ _ _ _ _ Hr Hp Hreq) as [H|[H|[H|[[_ [H|[H|H]]]|H]]]]; auto;
+      rewrite ?Hpc, ?Ht, ?Hmd, ?Hpf in H; simpl in H; try discriminate; congruence.
+  - destruct (redraw_not_lost _ _ _ _ _ _ Hr Hp Hreq) as [H|[H|[H|[H|[H|[H|H]]]]]]; auto;
+      rewrite ?Hpc, ?Ht, ?Hmd, ?Hpf, ?Hpn in H; simpl in H; try discriminate; congruence.
 Qed.
